@@ -24,6 +24,14 @@ CHECKS = {
    text="spec/EfiVarFs.tla models the variable store at API and file-system grain; TLC checks the Register / ReadsLastWrite invariants under replace-on-write semantics (and, as a vacuity guard, that they fail under plain-overwrite semantics). Every API-grain history TLC generates (plain and signed writes of growing, shrinking, empty and prefix-related values, reads; exhaustive to depth 2 quick / 3 thorough, -simulate and seeded random histories beyond, a third on pre-populated stores) runs on the real testfs store; the recorded events are validated by TLC against spec/EfiVarFsTrace.tla (a read returns the identity of the last completed write).",
    note="Trusted: TLC, identification of read-back bytes by comparison with the concretised values and the harness's independent descriptor reader. Bounded universe: 3 variables (6 in random histories), 5 values.",
    technique="TLA+ register spec model-checked with TLC; TLC-generated histories replayed on the in-memory store; TLC trace validation"),
+ "C17": dict(level="model_checking", ref="5/C17",
+   text="spec/EfiConv.tla defines GUID text / big-endian / wire forms and UTF-16 encoding with the surrogate arithmetic; TLC checks the round-trip identities (GuidLossless, StringLossless) on every enumerated value and emits the expected nibbles, wire bytes and code units; the real conversions (Format, StringToGUID in both cases, GUIDToBytes, Bytes, WriteGUID, CmpEFIGUID, in-structure layout through SignatureData/SignatureList encode and decode, MarshalUtf16Var, ParseUtf16Var, Efistring) are compared with them case by case.",
+   note="Trusted: TLC, the transcription of RFC 2781 / UEFI Appendix A in the spec. 2^128 GUIDs and all strings are sampled by boundary patterns (4032 GUIDs, 1588 strings, repeats to 4096+), not exhausted.",
+   technique="TLA+ transcription of the conversions; TLC-enumerated cases with expected outputs executed on the code"),
+ "C18": dict(level="model_checking", ref="5/C18",
+   text="spec/BootVars.tla defines boot-order decoding (Boot + four upper-case hex digits), the composition invariant OrderResolves (checked by TLC for all 65536 numbers) and the load-option grammar with rendering; TLC emits every boot order and load option with expected names, fields and renderings; the harness runs GetBootOrder then GetBootEntry (object and legacy API) on an in-memory store holding the firmware-named variables and EFILoadOption.Unmarshal on options produced by an independent encoder.",
+   note="Trusted: TLC, harness load-option encoder. Hard-drive signature text and the PartitionNumber=0 short form are MAY. Node field values are boundary samples.",
+   technique="TLA+ spec with composition invariant model-checked by TLC; TLC-enumerated cases executed on the code"),
  "C09": dict(level="model_checking", ref="5/C09",
    text="TLC model-checks spec/SigDb.tla (WellFormed invariant, OthersKept/ErrorsChangeNothing/AppendAddsOne/RemoveDropsOne action properties) over a bounded universe; every operation history TLC generates (exhaustive to depth 2 quick / 3 thorough, -simulate and seeded random histories beyond) is replayed on the real SignatureDatabase and the recorded events (result class + independent projection of Bytes()) are validated by TLC against spec/SigDbTrace.tla, which evaluates the list equations after every step.",
    note="Trusted: TLC, the independent ESL reader in harness/cmd/worker/eslproj.go, type-disjoint data universes. Exhaustive only within the bounded universe (2 owners, 10 data values, 4 types) and depth; deeper histories are sampled.",
